@@ -748,6 +748,16 @@ def execute(lines: list[str], seed_key: str, heavy: bool, plain: list[str] | Non
         where = f"step {idx} `{ln}`"
         if st == "bad-slot" or bad:
             continue
+        # (i) well-formedness, read from the public mappings only (no side effect)
+        for i in range(NSLOTS):
+            g = w.slots[i]
+            if g is None:
+                continue
+            keys = set(g.keys())
+            if not set(g.required_names) <= keys:
+                bad.append(("wf-required", f"{where} slot {i}: required names {sorted(set(g.required_names) - keys)} are not elements {sorted(keys)}"))
+            if not set(g.defaults) <= keys:
+                bad.append(("wf-defaults", f"{where} slot {i}: defaults {sorted(set(g.defaults) - keys)} are not elements {sorted(keys)}"))
         # documented exceptions, exactly
         if exp_exc != "?" and op not in QUERIES:
             if exp_exc is None and st.startswith("E:"):
@@ -1311,6 +1321,7 @@ class PydWorld:
         # grammar built on (or unpickled from one built on) the user's model class M1, a unique tag otherwise
         self.origin: list[str] = [""] * NSLOTS
         self._n = 0
+        self.snaps: list[Any] = [None, None]
 
     def _internal(self) -> str:
         self._n += 1
@@ -1351,8 +1362,22 @@ class PydWorld:
             g = self.slots[int(t[1])]
             if g is None:
                 return "bad-slot"
+            if op == "defsnap":
+                self.snaps[int(t[2])] = g.defaults.copy()
+                return "ok"
+            if op == "defrestore" and self.snaps[int(t[2])] is None:
+                return "bad-slot"
+            if op == "defupdfrom" and self.slots[int(t[2])] is None:
+                return "bad-slot"
         try:
-            if op == "upd":
+            if op == "defupdfrom":
+                g.defaults.update(self.slots[int(t[2])].defaults)
+            elif op == "defrestore":
+                if t[3] == "u":
+                    g.defaults.update(self.snaps[int(t[2])])
+                else:
+                    g.defaults = self.snaps[int(t[2])]
+            elif op == "upd":
                 self.slots[a].update(self.slots[b], excluded_names=parse_list(t[3]))
             elif op == "names":
                 g.update_from_names(parse_list(t[2]))
@@ -1391,12 +1416,18 @@ class PydWorld:
 def pyd_expected_exception(w: PydWorld, line: str) -> str | None:
     t = line.split()
     op = t[0]
-    if op in ("pnew", "clear", "copy", "pickle", "deldef", "names", "types", "upd"):
+    if op in ("pnew", "clear", "copy", "pickle", "deldef", "names", "types", "upd", "defsnap"):
         return None
     g = w.slots[int(t[1])]
     if g is None:
         return "?"
     keys = set(g.keys())
+    if op == "defupdfrom":
+        src = w.slots[int(t[2])]
+        return "?" if src is None else (None if set(src.defaults) <= keys else "E:key")
+    if op == "defrestore":
+        sn = w.snaps[int(t[2])]
+        return "?" if sn is None else (None if set(sn) <= keys else "E:key")
     if op == "restrict":
         return None if set(parse_list(t[2])) <= keys else "E:key"
     if op in ("rename", "del", "setdef"):
@@ -1523,7 +1554,8 @@ def gen_pyd_case(rng: common.Rng) -> list[str]:
             return rng.pick(ks) if ks and not rng.chance(0.08) else rng.pick(NAMES)
 
         op = rng.pick(["names"] * 3 + ["types"] * 3 + ["upd"] * 3 + ["restrict"] * 2 + ["rename"] * 3 + ["del"] * 3 + ["addns"] * 2
-                      + ["clear"] + ["copy"] * 4 + ["pickle"] * 3 + ["setdef"] * 2 + ["deldef"] + ["pnew"] * 2)
+                      + ["clear"] + ["copy"] * 4 + ["pickle"] * 3 + ["setdef"] * 2 + ["deldef"] + ["pnew"] * 2
+                      + ["defsnap"] * 2 + ["defrestore"] * 2 + ["defupdfrom"] * 2)
         if op == "names":
             ns = [n for n in rng.sample(NAMES, rng.randint(1, 2))]
             lines.append(f"names {s} {','.join(ns)} 0")
@@ -1570,6 +1602,12 @@ def gen_pyd_case(rng: common.Rng) -> list[str]:
             lines.append(f"setdef {s} {ex()} {rng.randint(1, 9)}")
         elif op == "deldef":
             lines.append(f"deldef {s} {ex()}")
+        elif op == "defsnap":
+            lines.append(f"defsnap {s} {rng.randint(0, 1)}")
+        elif op == "defrestore":
+            lines.append(f"defrestore {s} {rng.randint(0, 1)} {rng.pick('ua')}")
+        elif op == "defupdfrom":
+            lines.append(f"defupdfrom {s} {rng.pick(sorted(keys))}")
         elif op == "pnew":
             free = [i for i in range(NSLOTS) if i not in keys]
             new(rng.pick(free) if free else rng.pick(sorted(keys)))
